@@ -24,7 +24,7 @@ EXPLANATION = (
     "R6 check value: C06 (same _write). Float truncation off the 0.1 grid is not decided."
 )
 ASSUMPTIONS = ["vendor tables transcribed in sa/spec/tables.py (DESIGN Appendix A) are the oracle", "values outside the vendor's valid ranges are outside the property's quantifier"]
-FLOORS = {"C04.R1": 40, "C04.R2": 30, "C04.R3": 30, "C04.R4": 14, "C04.R5": 6}
+FLOORS = {"C04.R1": 40, "C04.R2": 30, "C04.R3": 30, "C04.R4": 14, "C04.R5": 6, "C04.R6": 1}
 
 
 def run(ctx):
@@ -34,6 +34,25 @@ def run(ctx):
     r3(ctx)
     r4(ctx)
     r5(ctx)
+    r6(ctx)
+
+
+def r6(ctx):
+    """The transmitted check value: same table, step function, span and write path as decided for C06."""
+    from . import c06
+
+    before = len(ctx.obligations)
+    c06.qa_reference(ctx)
+    c06.r1(ctx)
+    c06.r2(ctx)
+    c06.r4(ctx)
+    new = ctx.obligations[before:]
+    del ctx.obligations[before:]
+    bad = [o for o in new if o.verdict != "HOLDS"]
+    for o in bad:
+        o.rule = "C04.R6"
+        ctx.obligations.append(o)
+    ctx.check(not bad, "C04.R6", "check-value:crc16-modbus", ctx.repo.module("pyairtouch.comms.crc16"), None, f"the frame's check bytes are CRC-16/MODBUS over address..payload ({len(new)} obligations of C06.R1/R2/R4 hold)", f"{len(bad)} obligations fail")
 
 
 # ------------------------------------------------------------------------------------------ helpers
@@ -416,6 +435,23 @@ def r5(ctx):
             raise AnalysisError(f"{um.relpath}: {fn} left the analysable fragment: {ex}")
         ok = isinstance(v, B.Lin) and (v.mul, v.add, v.trunc) == want
         ctx.check(ok, R, f"at5.utils.{fn}", um, f, f"int({p}*{want[0]}+({want[1]}))", repr(v))
+    # exactness on the 0.1 degC grid: the factor 10.0 must be applied to the input itself (t*10.0 is correctly rounded to the
+    # integer grid value; (t - 10.0)*10.0 or t/0.1 are not), then an integer constant is added/subtracted, then int()
+    for gm, fnames in ((um, ("encode_set_point", "encode_temperature")), (ctx.repo.module("pyairtouch.at4.comms.utils"), ("encode_temperature",))):
+        for fn in fnames:
+            f = gm.get_function(fn)
+            p = f.args.args[0].arg
+            rets = [x for x in ast.walk(f) if isinstance(x, ast.Return)]
+            ok = False
+            found = norm_text(rets[0].value) if rets else ""
+            if len(rets) == 1:
+                calls = [c for c in ast.walk(rets[0].value) if isinstance(c, ast.Call) and dotted(c.func) == "int" and len(c.args) == 1]
+                if len(calls) == 1:
+                    a = calls[0].args[0]
+                    if isinstance(a, ast.BinOp) and isinstance(a.op, (ast.Add, ast.Sub)) and isinstance(a.right, ast.Constant) and isinstance(a.left, ast.BinOp) and isinstance(a.left.op, ast.Mult):
+                        l, r = a.left.left, a.left.right
+                        ok = (dotted(l) == p and isinstance(r, ast.Constant) and r.value in (10, 10.0)) or (dotted(r) == p and isinstance(l, ast.Constant) and l.value in (10, 10.0))
+            ctx.check(ok, R, f"{gm.name.split('.')[1]}.utils.{fn}:exact-on-grid", gm, f, f"int({p} * 10.0 +/- <integer>): the scale factor multiplies the input directly (float-exact for every 0.1 degC grid value)", found)
     for fn, want in (("decode_set_point", (Fraction(1, 10), Fraction(10))), ("decode_temperature", (Fraction(1, 10), Fraction(-50)))):
         f = um.get_function(fn)
         p = f.args.args[0].arg
